@@ -62,3 +62,14 @@ Theorem C03_mark_if_unset_refuted : exists g marks r1 r2 o,
   nth_error (apply_runs MarkIfUnset g marks [r1; r2]) o <> Some (Some (r_meta r2 (cls_of g o))).
 Proof. exact mark_if_unset_refuted. Qed.
 Print Assumptions C03_mark_if_unset_refuted.
+
+(* the premises are satisfiable on a non-trivial history: two equal objects of one task and a dependency object, two calls with
+   different outcomes; both instances end up with the outcome of the second call, the dependency keeps what the first call gave it *)
+Example C03_latest_outcome_example :
+  let c := {| ntasks := 2; deps := [[]; [0]]; reads := [[]; [0]]; behs := []; ty := []; maxpar := []; cacheable := []; req := [1]; pre := [];
+              bust := true; cont := true |} in
+  let g := {| nobj := 3; ocls := [0; 1; 1]; okids := [[]; [0]; [0]]; oreq := [1; 2] |} in
+  apply_runs mark_mode_src g [None; None; None]
+    [{| r_cfg := c; r_ok := [0; 1]; r_meta := fun t => 10 + t |}; {| r_cfg := c; r_ok := [1]; r_meta := fun t => 20 + t |}]
+  = [Some 10; Some 21; Some 21].
+Proof. vm_compute. reflexivity. Qed.
